@@ -38,12 +38,15 @@ Refit(a) == IF a.c = "unset" THEN a ELSE IF a.c \in NiceSensitive THEN Fitted(a.
 Init == tl = [i \in Ids |-> None] /\ axis = [s \in {DefaultObj} |-> Fitted("unset", 0)] /\ out = [i \in Ids |-> None] /\ sharedDir = "unset" /\ nobj = 0 /\ h = <<>>
 
 Construct(i, c) ==
-    LET s == IF c \in OwnScaleCfgs \/ ~ShareDefaultScale THEN <<"obj", nobj + 1>> ELSE DefaultObj
+    \* the scale object this instance writes into: a fresh one (its own, or a private copy of the default).  A fresh object is
+    \* named after the instance that holds it: the object a re-constructed instance held before is garbage (nobody else can
+    \* hold it), so the state space stays finite and TLC decides the properties for histories of every length
+    LET s == IF c \in OwnScaleCfgs \/ ~ShareDefaultScale THEN <<"obj", i>> ELSE DefaultObj
     IN /\ tl' = [tl EXCEPT ![i] = [kind |-> "tl", cfg |-> c, scale |-> s]]
        /\ axis' = [x \in DOMAIN axis \cup {s} |-> IF x = s THEN Fitted(c, IF FitAxisAtExport THEN 0 ELSE 1) ELSE axis[x]]      \* InitAxis writes through the reference
        /\ out' = [out EXCEPT ![i] = None]
        /\ sharedDir' = c                         \* options["labella"]["direction"] = direction, into the shared default dict
-       /\ nobj' = nobj + 1
+       /\ nobj' = nobj                           \* (kept for the trace specification's variable list; no longer counts)
        /\ h' = Append(h, [a |-> "K", i |-> i, c |-> c])
 Export(i) ==
     /\ tl[i].kind = "tl"
@@ -54,6 +57,8 @@ Export(i) ==
     /\ UNCHANGED <<tl, sharedDir, nobj>>
 Next == Len(h) < MaxLen /\ \E i \in Ids : (\E c \in Cfgs : Construct(i, c)) \/ Export(i)
 Spec == Init /\ [][Next]_vars
+
+View == <<tl, axis, out, sharedDir>>       \* without the history: a finite graph (configuration MCTimelines_unbounded)
 
 \* C10: every exported document is the one the same data and options give alone in a fresh process
 Isolation == \A i \in Ids : out[i].kind = "doc" => out[i] = Solo(tl[i].cfg)
